@@ -324,6 +324,9 @@ func body(r *rand.Rand, root walletdb.ReadWriteBucket, m *mb, readonly bool, log
 			}
 		case 10: // seek
 			ks := curM.keys()
+			if len(ks) > 0 && r.Intn(3) == 0 {
+				k = append([]byte(ks[len(ks)-1]), 0xff) // beyond every key
+			}
 			c := curB.ReadCursor()
 			kk, _ := c.Seek(k)
 			i := sort.SearchStrings(ks, string(k))
@@ -331,6 +334,19 @@ func body(r *rand.Rand, root walletdb.ReadWriteBucket, m *mb, readonly bool, log
 			if i == len(ks) {
 				if kk != nil {
 					return fmt.Sprintf("seek|Seek(%x) past the end returned %x", k, kk)
+				}
+				// reverse iteration from "after the last key": Prev yields the last key
+				// (the idiom callers use to walk a bucket backwards from a bound)
+				if len(ks) > 0 {
+					stats["seeks-past-the-end-then-prev"]++
+					if pk, _ := c.Prev(); string(pk) != ks[len(ks)-1] {
+						return fmt.Sprintf("cursor-order:backward|Prev after Seek(%x) past the end = %x, the last key is %x", k, pk, ks[len(ks)-1])
+					}
+					if len(ks) > 1 {
+						if pk, _ := c.Prev(); string(pk) != ks[len(ks)-2] {
+							return fmt.Sprintf("cursor-order:backward|second Prev after Seek(%x) past the end = %x, model %x", k, pk, ks[len(ks)-2])
+						}
+					}
 				}
 			} else if string(kk) != ks[i] {
 				return fmt.Sprintf("seek|Seek(%x) = %x, model %x", k, kk, ks[i])
@@ -1076,6 +1092,7 @@ func main() {
 	r.Require("outcome:readonly", 50)
 	r.Require("growing-updates-after-a-failed-read-only-transaction", 50)
 	r.Require("cursor-scans", 500)
+	r.Require("seeks-past-the-end-then-prev", 100)
 	r.Require("reopens", 20)
 	r.Require("concurrent-snapshots-observed", 50)
 	os.Exit(r.Finish())
